@@ -48,7 +48,12 @@ class Harness(object):
         import warnings
         warnings.filterwarnings('ignore')
 
-        self.dir = tempfile.mkdtemp(prefix='vp-', dir='/dev/shm')
+        parent = os.environ.get('VP_SHM_PARENT')
+        if not parent or not os.path.isdir(parent):
+            parent = '/dev/shm'
+        self.dir = tempfile.mkdtemp(prefix='vp-', dir=parent)
+        # atexit does not run in multiprocessing children (os._exit): pools hand their workers
+        # a parent directory (VP_SHM_PARENT) that the master removes; see vp/workers.py
         atexit.register(shutil.rmtree, self.dir, True)
         self.dbfile = os.path.join(self.dir, 'placement.db')
         self.policy_file = os.path.join(self.dir, 'policy.yaml')
@@ -138,6 +143,7 @@ def make_base_image(conf_overrides=None, sync=True):
     rd, wr = ctx.Pipe(duplex=False)
 
     def child():
+        h = None
         try:
             h = Harness(conf_overrides=conf_overrides, sync=sync)
             wr.send(h.base_image)
@@ -145,6 +151,8 @@ def make_base_image(conf_overrides=None, sync=True):
             wr.send(e)
         finally:
             wr.close()
+            if h is not None:
+                shutil.rmtree(h.dir, True)
     p = ctx.Process(target=child)
     p.start()
     img = rd.recv()
